@@ -43,13 +43,20 @@ public:
     void add_node_ref(long) {}
 };
 
+class ChangesetDiscussionBuilder : public Builder {
+public:
+    explicit ChangesetDiscussionBuilder(Builder& parent) : Builder(parent.buffer(), &parent) {}
+    void add_comment(long, unsigned, const char*) {}
+    void add_comment_text(const char*) {}
+};
+
 } // namespace builder
 
 namespace io { namespace detail {
 
 class XMLParser {
 
-    enum class context { osm, way, tag, nd, other };
+    enum class context { osm, way, tag, nd, discussion, comment, text, other };
 
     std::vector<context> m_context_stack;
     osmium::memory::Buffer m_buffer;
@@ -57,6 +64,7 @@ class XMLParser {
     std::unique_ptr<osmium::builder::WayBuilder> m_way_builder;
     std::unique_ptr<osmium::builder::TagListBuilder> m_tl_builder;
     std::unique_ptr<osmium::builder::WayNodeListBuilder> m_wnl_builder;
+    std::unique_ptr<osmium::builder::ChangesetDiscussionBuilder> m_changeset_discussion_builder;
 
     osmium::memory::Buffer& buffer() noexcept { return m_buffer; }
 
@@ -96,6 +104,14 @@ public:
                     get_tag(*m_way_builder, attrs);         // TS-sibling: the node list builder may still be open
                 }
                 break;
+            case context::discussion:
+                m_context_stack.push_back(context::comment);
+                m_changeset_discussion_builder->add_comment(0, 0, "");
+                break;
+            case context::comment:
+                m_context_stack.push_back(context::text);
+                break;
+            case context::text:
             case context::tag:
             case context::nd:
             case context::other:
@@ -112,6 +128,12 @@ public:
                 m_way_builder.reset();                      // TS-end: parent first
                 m_wnl_builder.reset();
                 break;                                      // TS-end: tag list builder never reset
+            case context::discussion:
+            case context::comment:                          // TS-comment: obligation not closed here ...
+                break;
+            case context::text:                             // ... but at the end of every <text>
+                m_changeset_discussion_builder->add_comment_text("");
+                break;
             case context::tag:
             case context::nd:
             case context::other:
